@@ -1,19 +1,21 @@
 """C18 — TransactionalizedFIFO is a commit/rollback queue.
 
-DUT: luna.gateware.memory.TransactionalizedFIFO (random depth/width).
+DUT: luna.gateware.memory.TransactionalizedFIFO (random depth/width; domain default / "sync" / another domain with an
+unrelated sync clock as a bystander; name given or None).
 Monitor: every cycle compares empty/full/space_available/read_data with a reference queue that is
 advanced with the *sampled* inputs of that same edge.
 """
-from rv.sim import Bench
+from rv.sim import Bench, with_bystanders
 
 PROPERTY = "C18"
 CASES = {"quick": 320, "thorough": 6400}
-RULE = ("case = (depth 1..17, width 1..16, op-mix profile, 1500-4000 cycles of random per-cycle subsets of "
+RULE = ("case = (depth 1..17 (6 %: 31..1023 with a directed fill/drain sweep), width 1..16, domain mode, op-mix profile, 1500-4000 cycles of random per-cycle subsets of "
         "{write_en, write_commit|write_discard, read_en, read_commit|read_discard}); non-trivial = the case hit "
         "full and empty and performed >=1 discard of each kind and wrapped the storage; distinct = hash of config + op stream")
 REQUIRED_BINS = ["full_seen", "write_while_full", "read_while_empty", "write_discard_nonempty", "read_discard_nonempty",
                  "wrap_with_uncommitted", "simultaneous_we_wc", "simultaneous_we_wdisc", "simultaneous_re_rc",
-                 "simultaneous_re_rdisc", "depth_1", "depth_ge_9", "cross_port_same_cycle"]
+                 "simultaneous_re_rdisc", "depth_1", "depth_ge_9", "cross_port_same_cycle",
+                 "domain_default", "domain_explicit_sync", "domain_other", "depth_ge_31", "big_fifo_full_seen"]
 REQUIRED_EVENTS = ["cycles_compared", "read_data_compared", "writes_accepted", "reads_accepted"]
 ASSUMPTIONS = ["commit and discard of the same port in the same cycle are contradictory and not generated",
                "pysim models the amaranth Memory read port faithfully"]
@@ -85,24 +87,62 @@ def run_case(rng, tier, res):
     depth = rng.choice([1, 2, 3, 4, 5, 7, 8, 9, 15, 16, 17, rng.randint(1, 17)])
     width = rng.choice([1, 2, 4, 8, 8, 9, 16, rng.randint(1, 16)])
     ncyc = rng.randint(1500, 4000)
+    big = rng.random() < 0.06
+    if big:
+        # depths of the order luna really uses (endpoint buffers: 64..2047 entries): pointer widths beyond 5 bits
+        depth = rng.choice([31, 32, 33, 63, 64, 65, 127, 128, 129, 255, 256, 257, 511, 512, 1023])
+        width = rng.choice([8, 8, 10])
+        ncyc = min(9000, 2000 + 5 * depth)
+        res.bin("depth_ge_31")
     profile = rng.choice(sorted(PROFILES))
-    dut = TransactionalizedFIFO(width=width, depth=depth, name="fifo")
-    b = Bench(dut, domain="sync", freq=60e6, max_cycles=ncyc + 10)
+    # clock domain the FIFO is asked to live in: default, "sync" given explicitly, or another one (every user inside luna
+    # passes "usb"); in the last case the Bench clocks that domain and sync runs at an unrelated rate as a bystander
+    dom_mode = rng.choice(["default", "explicit_sync", "other", "other"])
+    if dom_mode == "default":
+        dut = TransactionalizedFIFO(width=width, depth=depth, name=rng.choice(["fifo", None]))
+        b = Bench(dut, domain="sync", freq=60e6, max_cycles=ncyc + 10)
+    elif dom_mode == "explicit_sync":
+        dut = TransactionalizedFIFO(width=width, depth=depth, name="fifo", domain="sync")
+        b = Bench(dut, domain="sync", freq=60e6, max_cycles=ncyc + 10)
+    else:
+        dname = rng.choice(["usb", "usb", "ss", "fast"])
+        dut = TransactionalizedFIFO(width=width, depth=depth, name="fifo", domain=dname)
+        try:
+            b = Bench(with_bystanders(dut, "sync"), domain=dname, freq=60e6,
+                      clocks={"sync": rng.choice([17e6, 48e6, 120e6, 200e6])}, max_cycles=ncyc + 10)
+        except (NameError, ValueError) as e:
+            if "not present" not in str(e):
+                raise
+            # the design contains no clock domain of the requested name: the FIFO was not placed in it
+            res.bin("domain_" + dom_mode)
+            res.violation("requested_domain_not_used", "TransactionalizedFIFO(domain=%r): %s" % (dname, e))
+            res.nontrivial = True
+            return
+    res.bin("domain_" + dom_mode)
     ins = [dut.write_en, dut.write_data, dut.write_commit, dut.write_discard, dut.read_en, dut.read_commit, dut.read_discard]
     outs = [dut.empty, dut.full, dut.space_available, dut.read_data]
     b.watch(*ins, *outs)
     ref = RefFifo(depth)
     mask = (1 << width) - 1
-    res.desc = {"depth": depth, "width": width, "cycles": ncyc, "profile": profile}
-    res.sig(depth, width, profile)
+    res.desc = {"depth": depth, "width": width, "cycles": ncyc, "profile": profile, "domain": dom_mode}
+    res.sig(depth, width, profile, dom_mode)
     res.bin("depth_1" if depth == 1 else "depth_ge_9" if depth >= 9 else "depth_mid")
     state = {"tag": rng.randrange(1 << 16), "prev_rdisc": False, "prev_wdisc": False, "wrapped": 0, "wcount": 0}
 
     def driver():
         prof = list(PROFILES[profile])
         phase_len = rng.randint(30, 300)
+        sweep = "fill" if big else None      # big FIFOs: one directed fill-to-full, then drain-to-empty, then random
         for t in range(ncyc):
-            if t % phase_len == 0 and rng.random() < 0.5:
+            if sweep == "fill":
+                prof = list(PROFILES["fill"])
+                if ref.full and rng.random() < 0.05:
+                    sweep = "drain"
+            elif sweep == "drain":
+                prof = list(PROFILES["drain"])
+                if ref.empty and not ref.q and rng.random() < 0.05:
+                    sweep = None
+            elif t % phase_len == 0 and rng.random() < 0.5:
                 # switch behaviour now and then so that full/empty are both reached
                 prof = list(PROFILES[rng.choice(sorted(PROFILES))])
             pwe, pwc, pwd, pre, prc, prd = prof
@@ -141,6 +181,8 @@ def run_case(rng, tier, res):
         # bins
         if ref.full:
             res.bin("full_seen")
+            if big:
+                res.bin("big_fifo_full_seen")
             if we:
                 res.bin("write_while_full")
         if ref.empty and re:
